@@ -10,6 +10,7 @@ mod hookchecks;
 mod hooklevel;
 mod progchecks;
 mod proglevel;
+mod raftstep;
 mod tape;
 mod util;
 
@@ -91,7 +92,7 @@ fn main() {
             c34::run(&mut ctx);
         }
         "C40" => {
-            ctx.rule = "raft: 3 members, fail-stop TCP, proptest input scripts (4-40 events: election timer, heartbeat timer, client request per member, optional quiesce barriers; optionally prefixed by a race-free election+commit) x proptest decision tapes (0-4096 bytes) through fuzz_repro; oracle: per-member committed indexes contiguous from 1, pairwise prefix-consistent histories, raft_step's truncation guard never fires. paxos (components only): index_payloads under exhaustive for 1-5 payloads with/without a phase barrier; acceptor_p2 with generated promised ballots and P2a sets (exhaustive <=3, tapes <=8). Non-trivial (raft): >=2 distinct candidates and >=1 committed entry.".into();
+            ctx.rule = "raft: 3 members, fail-stop TCP, proptest input scripts (4-40 events: election timer, heartbeat timer, client request per member, optional quiesce barriers; optionally prefixed by a race-free election+commit; scripts shaped like the repository's concurrent-elections test; a figure-8 family: a leader appends unreplicated entries, another member wins the next term, then its heartbeat races the old leader's election timer) x proptest decision tapes (0-4096 bytes) through fuzz_repro; oracle: per-member committed indexes contiguous from 1, pairwise prefix-consistent histories, raft_step's truncation guard never fires. second raft driver: the public raft_step over harness-owned FIFO queues per directed link with a generated delivery schedule (per tick: member, timers, request, delivered prefix of each incoming link), random schedules and a figure-8 family, same oracle after every tick. paxos (components only): index_payloads under exhaustive for 1-5 payloads with/without a phase barrier; acceptor_p2 with generated promised ballots and P2a sets (exhaustive <=3, tapes <=8). Non-trivial (raft): >=2 distinct candidates and >=1 committed entry.".into();
             c40::run(&mut ctx);
         }
         "X-exp" => {
